@@ -205,6 +205,19 @@ Theorem C19_eta_events_linear : forall a b y y1 y2 len offset bc zs times dt,
 Proof. exact eta_events_linear. Qed.
 Print Assumptions C19_eta_events_linear.
 
+(* scaling of the data by any factor a (in particular an exact power of two, the re-run of every oracle case):
+   FIR and eta scale by a, for every design / placement; special case b = 0 of linearity *)
+Theorem C19_fir_scale : forall pinv XT a (y y1 : list Q),
+  length y = length y1 -> scaled a y y1 ->
+  forall j, (getQ (fir pinv y XT) j == a * getQ (fir pinv y1 XT) j)%Q.
+Proof. exact fir_scale. Qed.
+Theorem C19_eta_scale : forall a y y1 len bc starts k,
+  (0 < len)%nat -> scaled a y y1 -> 0 <= k < Z.of_nat len ->
+  (getQ (eta_of (apply_baseline bc (map (seg_fun y len) starts)) len) k ==
+   a * getQ (eta_of (apply_baseline bc (map (seg_fun y1 len) starts)) len) k)%Q.
+Proof. exact eta_scale. Qed.
+Print Assumptions C19_fir_scale.
+
 (* per channel: with multi-channel data and one coded series, channel i of FIR / eta / ets is the
    single-channel computation on data[i] (so all the statements above hold channel by channel) *)
 Theorem C19_FIR_per_channel : forall pinv data ev len (b n : nat) rows,
